@@ -568,6 +568,8 @@ impl<'a, T: RealNumber, M: Matrix<T>, K: Kernel<T, M::RowVector>> Optimizer<'a, 
 
     fn permutate(n: usize) -> Vec<usize> {
         let mut rng = rand::thread_rng();
+        #[cfg(smartcore_verif)]
+        let mut rng = crate::verif_hooks::schedule_rng();
         let mut range: Vec<usize> = (0..n).collect();
         range.shuffle(&mut rng);
         range
